@@ -87,7 +87,7 @@ PaintAttrs(n_) ==
 StrokeAttrs(n_) ==
   IF Focus \notin {"stroke", "mixed", "grad"} \/ ~MaybeN(112, IF Focus = "stroke" THEN 85 ELSE 25) THEN <<>>
   ELSE Opt(113, "stroke", Colors, 90)
-    \o Opt(114, "stroke-width", {1, 2, 2, 4}, 75)
+    \o Opt(114, "stroke-width", {1, 2, 2, 4, 0}, 75)
     \o Opt(115, "stroke-linecap", {"butt", "round", "square"}, 45)
     \o Opt(116, "stroke-linejoin", {"miter", "round", "bevel"}, 45)
     \o Opt(117, "stroke-miterlimit", {1, 4, 10}, 20)
@@ -204,14 +204,19 @@ AddSvg ==
   /\ Cardinality({i \in 1..Len(open) : nodes[open[i]].tag = "svg"}) <= 1
   /\ LET par == IF MaybeN(147, 30) THEN <<>> ELSE IF MaybeN(148, 15) THEN <<"none">>
                 ELSE <<PickN(149, Aligns), PickN(150, {"", "meet", "slice"})>>
-         vb  == IF MaybeN(151, 25) THEN <<>> ELSE PickN(152, { <<0,0,16,16>>, <<0,0,8,16>>, <<2,2,12,6>>, <<0,0,32,32>> })
+         sx == PickN(155, {0, 2, 4})  sy == PickN(156, {0, 1, 4})
+         sw == PickN(157, {8, 12, 16, -1})  sh == PickN(158, {8, 10, 16, -1})
+         \* (a viewBox that coincides with the viewport is the identity, not a translation)
+         vb  == IF MaybeN(151, 25) THEN <<>>
+                ELSE IF sw > 0 /\ sh > 0 /\ MaybeN(474, 20) THEN <<sx, sy, sw, sh>>
+                ELSE PickN(152, { <<0,0,16,16>>, <<0,0,8,16>>, <<2,2,12,6>>, <<0,0,32,32>> })
          tf  == IF MaybeN(153, 30) THEN << <<"transform", <<PickN(154, TfOps \ QOps)>>, 0>> >> ELSE <<>>
          \* a nested svg is a container like g: what it says about painting applies to its content
          pa  == Opt(470, "fill", Colors, 30) \o Opt(471, "opacity", {1, 2}, 15) \o Opt(472, "display", {"none"}, 6)
                 \o Opt(473, "fill-opacity", {1, 2}, 10)
      IN Push([d |-> Depth, tag |-> "svg", id |-> "",
               at |-> tf \o pa,
-              g |-> <<PickN(155, {0, 2, 4}), PickN(156, {0, 1, 4}), PickN(157, {8, 12, 16, -1}), PickN(158, {8, 10, 16, -1}), vb, par,
+              g |-> <<sx, sy, sw, sh, vb, par,
                       IF tf # <<>> THEN "visible" ELSE PickN(159, {"", "hidden", "visible", "visible"})>>,
               ref |-> ""])
 
